@@ -466,7 +466,7 @@ def run(ck):
     ck.cov["rule"] = ("evaluations = closed-loop runs (launch, 8..40 fault rounds, %d healthy rounds); distinct_nontrivial = runs with at least one "
                       "crash and one executed restore/ADD/DELETE/KILL; model re-validation on a sample of the runs" % (HEAL_BOUND + QUIET + 2))
     if os.environ.get("C01_SKIP_PROOFS") != "1":
-        if not ck.proofs():
+        if not ck.proofs(["theories/FleetRun.vo"]):
             return
     binpath = ck.go_test_bin("", ["root/zz_verif_loop_test.go"], name="loop")
     if binpath is None:
